@@ -76,6 +76,14 @@ def run_rows(part, unit):
             continue
         lo, hi = float(r['min_wavelength']), float(r['max_wavelength'])
         ws = wl_menu(lo, hi, unit['tier'])
+        if ref.get('unsorted'):
+            # rows out of wavelength order in the file: sample the middle of every interval of the (sorted) tables as well
+            part.count('tables-with-rows-out-of-order')
+            for tb in (ref.get('n_table'), ref.get('k_table')):
+                if tb is not None and len(tb[0]) > 1:
+                    x_ = np.unique(tb[0])
+                    mids = 0.5 * (x_[1:] + x_[:-1])
+                    ws = np.concatenate([ws, mids[(mids >= lo) & (mids <= hi)]])
         c = f'file={rel}'
         try:
             m = MaterialFile(path)
